@@ -9,7 +9,7 @@ from .kernel import HarnessError
 from .space import ops
 
 
-def drive_pack(cases, make_calls, transport="bundled", stats=None, naming="operationId", refs=False):
+def drive_pack(cases, make_calls, transport="bundled", stats=None, naming="operationId", refs=False, transport_kwargs=None):
     """cases: op cases; make_calls(case) -> [call spec without prop/method/id]
     returns list aligned with cases: {"status": "ok"|"rejected"|"unimportable", "records": [...], "error": str}"""
     stats = stats if stats is not None else {}
@@ -22,7 +22,7 @@ def drive_pack(cases, make_calls, transport="bundled", stats=None, naming="opera
             if len(cases) == 1:
                 return [{"status": "rejected", "records": [], "error": f"{type(err).__name__}: {err}"[:300]}]
             mid = len(cases) // 2
-            return drive_pack(cases[:mid], make_calls, transport, stats, naming, refs) + drive_pack(cases[mid:], make_calls, transport, stats, naming, refs)
+            return drive_pack(cases[:mid], make_calls, transport, stats, naming, refs, transport_kwargs) + drive_pack(cases[mid:], make_calls, transport, stats, naming, refs, transport_kwargs)
         calls = []
         for i, c in enumerate(cases):
             for j, spec in enumerate(make_calls(c)):
@@ -32,14 +32,14 @@ def drive_pack(cases, make_calls, transport="bundled", stats=None, naming="opera
                 s["method"] = f"op{i}"
                 calls.append(s)
         res = sandbox.zygote_job({"roots": [root], "allow": ["cli"], "driver": "drive",
-                                  "args": {"package": "cli", "core": "cli.core", "transport": transport, "calls": calls}}, timeout_s=100)
+                                  "args": {"package": "cli", "core": "cli.core", "transport": transport, "transport_kwargs": transport_kwargs, "calls": calls}}, timeout_s=100)
     if "_crash" in res:
         raise HarnessError("drive driver crashed: " + res["_crash"] + res.get("_tb", ""))
     if any(e["stage"] == "make_client" for e in res["errors"]):
         if len(cases) == 1:
             return [{"status": "unimportable", "records": [], "error": res["errors"][0]["raw"]}]
         mid = len(cases) // 2
-        return drive_pack(cases[:mid], make_calls, transport, stats, naming, refs) + drive_pack(cases[mid:], make_calls, transport, stats, naming, refs)
+        return drive_pack(cases[:mid], make_calls, transport, stats, naming, refs, transport_kwargs) + drive_pack(cases[mid:], make_calls, transport, stats, naming, refs, transport_kwargs)
     out = [{"status": "ok", "records": []} for _ in cases]
     for rec in res["calls"]:
         i, j = rec["id"]
